@@ -8,10 +8,11 @@
 -/
 import Driver.Ops
 import Driver.TrajOps
+import Driver.MiscOps
 
 open BC Driver
 
-def allOps : List (String × P String) := Driver.table ++ Driver.trajTable
+def allOps : List (String × P String) := Driver.table ++ Driver.trajTable ++ Driver.miscTable
 
 def dispatch (op : String) (args : List String) : String :=
   match allOps.find? (·.1 == op) with
